@@ -566,3 +566,246 @@ Proof.
       apply Ok_inj in H; injection H as <- <-; cbn [app forallb ev_ok Z.eqb Pos.eqb orb andb];
       apply (enc_len_events_ok _ _ _ _ EL).
 Qed.
+
+(* ---------------------------------------------------------------------------------------------
+   3. Distances *)
+Theorem dist_slot_spec dist : 0 <= dist < 2 ^ 32 ->
+  0 <= get_dist_slot dist < 64 /\
+  (dist < 4 -> get_dist_slot dist = dist) /\
+  (4 <= dist ->
+     1 <= get_dist_slot dist / 2 - 1 <= 30 /\
+     (2 + get_dist_slot dist mod 2) * 2 ^ (get_dist_slot dist / 2 - 1) <= dist
+       < (2 + get_dist_slot dist mod 2 + 1) * 2 ^ (get_dist_slot dist / 2 - 1)).
+Proof.
+  intros Hd. unfold get_dist_slot.
+  destruct (Z.leb_spec dist 4) as [H4|H4].
+  - split; [lia|]. split; [reflexivity|]. intros H. assert (dist = 4) as -> by lia.
+    change (4 / 2 - 1) with 1. change (4 mod 2) with 0. change (2 ^ 1) with 2. lia.
+  - cbv zeta. set (i := Z.log2 dist).
+    pose proof (Z.log2_spec dist ltac:(lia)) as HL. fold i in HL.
+    assert (Hi2 : 2 <= i). { apply (Z.log2_le_pow2 dist 2); [lia | change (2 ^ 2) with 4; lia]. }
+    assert (Hi32 : i < 32). { apply (Z.log2_lt_pow2 dist 32); lia. }
+    clearbody i.
+    set (P := 2 ^ (i - 1)).
+    assert (HPpos : 0 < P) by (apply pow2_pos; lia).
+    assert (HPi : 2 ^ i = 2 * P). { unfold P. rewrite <- Z.pow_succ_r by lia. f_equal; lia. }
+    assert (HPs : 2 ^ Z.succ i = 4 * P). { rewrite Z.pow_succ_r by lia. lia. }
+    rewrite HPi, HPs in HL.
+    rewrite land_1_mod2, Z.shiftr_div_pow2 by lia. fold P.
+    assert (Hq : 2 <= dist / P < 4).
+    { split; [apply Z.div_le_lower_bound; lia | apply Z.div_lt_upper_bound; lia]. }
+    assert (Hqr : P * (dist / P) <= dist < P * (dist / P) + P).
+    { pose proof (Z.div_mod dist P ltac:(lia)) as E.
+      pose proof (Z.mod_pos_bound dist P HPpos) as B. lia. }
+    set (q := dist / P) in *. clearbody q.
+    assert (Hs2 : (2 * i + q mod 2) / 2 = i) by lia.
+    assert (Hm2 : (2 * i + q mod 2) mod 2 = q - 2) by lia.
+    rewrite Hs2, Hm2. fold P. clearbody P.
+    split; [lia|]. split; [lia|]. intros _. split; [lia|].
+    assert (q = 2 \/ q = 3) as [-> | ->] by lia; lia.
+Qed.
+
+Lemma lor_2_bit b : b = 0 \/ b = 1 -> Z.lor 2 b = 2 + b.
+Proof. intros [-> | ->]; reflexivity. Qed.
+
+Lemma land_15_mod16 x : Z.land x 15 = x mod 16.
+Proof. apply (Z.land_ones x 4). lia. Qed.
+
+Lemma wrap32_small x : 0 <= x < 2 ^ 32 -> wrap32 x = x.
+Proof. intros H. unfold wrap32. apply Z.mod_small. lia. Qed.
+
+Lemma pow2_le_mono a b : 0 <= a <= b -> 2 ^ a <= 2 ^ b.
+Proof. intros H. apply Z.pow_le_mono_r; lia. Qed.
+
+(* footer of a distance with slot 4..13: reverse bit tree of all footer bits *)
+Lemma footer_small B fb hi dr rest : 0 <= fb -> 0 <= dr < 2 ^ fb ->
+  run_trace (bind x <- decode_reverse_bit_tree B (Z.to_nat fb); Ret (Z.lor (hi * 2 ^ fb) x))
+            (enc_rev_bittree B (Z.to_nat fb) dr 1 ++ rest)
+  = Some (Ok (hi * 2 ^ fb + dr), rest).
+Proof.
+  intros Hfb Hdr.
+  rewrite (run_trace_bind_ok _ _ _ dr rest).
+  - cbn [run_trace]. rewrite lor_disjoint_add' by assumption. reflexivity.
+  - apply rev_bittree_roundtrip. rewrite Z2Nat.id by assumption. assumption.
+Qed.
+
+(* footer of a distance with slot >= 14: direct bits, then 4 aligned bits in a reverse bit tree *)
+Lemma footer_large fb hi dr rest : 4 <= fb <= 30 -> 0 <= dr < 2 ^ fb ->
+  run_trace (Direct (Z.to_nat (fb - 4)) (fun v =>
+               bind x <- decode_reverse_bit_tree K_DIST_ALIGN 4;
+               Ret (Z.lor (Z.lor (hi * 2 ^ fb) (wrap32 (Z.shiftl v 4))) x)))
+            (EDirect (Z.to_nat (fb - 4)) (Z.shiftr dr 4)
+               :: enc_rev_bittree K_DIST_ALIGN 4 (Z.land dr 15) 1 ++ rest)
+  = Some (Ok (hi * 2 ^ fb + dr), rest).
+Proof.
+  intros Hfb Hdr. rewrite run_trace_direct.
+  rewrite land_15_mod16, (Z.shiftr_div_pow2 dr 4) by lia. change (2 ^ 4) with 16.
+  rewrite (run_trace_bind_ok _ _ _ (dr mod 16) rest)
+    by (apply rev_bittree_roundtrip; change (2 ^ Z.of_nat 4) with 16; lia).
+  cbn [run_trace]. do 3 f_equal.
+  pose proof (pow2_le_mono fb 30 ltac:(lia)) as H30. change (2 ^ 30) with 1073741824 in H30.
+  rewrite Z.shiftl_mul_pow2 by lia. change (2 ^ 4) with 16.
+  rewrite wrap32_small by lia.
+  assert (E : 2 ^ fb = 2 ^ (fb - 4) * 2 ^ 4).
+  { rewrite <- Z.pow_add_r by lia. f_equal. lia. }
+  rewrite (lor_disjoint_add' (dr / 16 * 16) hi fb) by lia.
+  replace (hi * 2 ^ fb + dr / 16 * 16) with ((hi * 2 ^ (fb - 4) + dr / 16) * 2 ^ 4)
+    by (rewrite E; change (2 ^ 4) with 16; ring).
+  rewrite lor_disjoint_add' by (change (2 ^ 4) with 16; lia).
+  rewrite E. change (2 ^ 4) with 16. 
+  pose proof (Z.div_mod dr 16 ltac:(lia)) as DM. 
+  transitivity (hi * (2 ^ (fb - 4) * 16) + (16 * (dr / 16) + dr mod 16)); [ring | rewrite <- DM; reflexivity].
+Qed.
+
+Lemma pair_inj {A B} (a a' : A) (b b' : B) : (a, b) = (a', b') -> a = a' /\ b = b'.
+Proof. intros H; split; congruence. Qed.
+
+(* the quantities both sides derive from the slot of a distance >= 4 *)
+Lemma dist_footer_facts dist : 4 <= dist < 2 ^ 32 ->
+  let slot := get_dist_slot dist in
+  let fb := slot / 2 - 1 in
+  let hi := 2 + slot mod 2 in
+  4 <= slot < 64 /\ 1 <= fb <= 30 /\
+  Z.shiftr slot 1 - 1 = fb /\
+  wrap32 (Z.shiftl (Z.lor 2 (Z.land slot 1)) fb) = hi * 2 ^ fb /\
+  wrap32 (dist - hi * 2 ^ fb) = dist - hi * 2 ^ fb /\
+  0 <= dist - hi * 2 ^ fb < 2 ^ fb /\
+  (slot < 14 -> fb <= 5) /\ (14 <= slot -> 6 <= fb).
+Proof.
+  intros Hd. cbv zeta.
+  destruct (dist_slot_spec dist ltac:(lia)) as (Hs & _ & Hhi). specialize (Hhi ltac:(lia)).
+  destruct Hhi as (Hfb & Hlo).
+  set (slot := get_dist_slot dist) in *. clearbody slot.
+  set (fb := slot / 2 - 1) in *.
+  assert (Hm : slot mod 2 = 0 \/ slot mod 2 = 1) by lia.
+  assert (Hfbd : fb = slot / 2 - 1) by reflexivity. clearbody fb.
+  pose proof (pow2_pos fb ltac:(lia)) as HP.
+  pose proof (pow2_le_mono fb 30 ltac:(lia)) as H30. change (2 ^ 30) with 1073741824 in H30.
+  split; [lia|]. split; [lia|].
+  split; [rewrite shiftr1_div2; lia|].
+  rewrite land_1_mod2, lor_2_bit by assumption.
+  rewrite Z.shiftl_mul_pow2 by lia.
+  split; [apply wrap32_small; destruct Hm as [Hm | Hm]; rewrite Hm in *; lia|].
+  split; [apply wrap32_small; destruct Hm as [Hm | Hm]; rewrite Hm in *; lia|].
+  split; [destruct Hm as [Hm | Hm]; rewrite Hm in *; lia|].
+  split; lia.
+Qed.
+
+Theorem match_roundtrip c ps dist len evs c' rest :
+  0 <= dist < 2 ^ 32 -> 2 <= len <= 273 -> 0 <= ps < 16 ->
+  enc_match_events c ps dist len = Ok (evs, c') ->
+  run_trace (decode_match c ps) (evs ++ rest) = Some (Ok (c', len), rest).
+Proof.
+  intros Hd Hl Hp H. unfold enc_match_events in H. unfold decode_match. cbv zeta in H |- *.
+  destruct (enc_len K_MATCH_LEN len ps) as [elen| | |] eqn:EL; cbn [obind] in H; try discriminate.
+  destruct (key2 K_DIST_SLOTS 4 64 (dist_state_of_len len) 0) as [dsk| | |] eqn:KD;
+    cbn [obind] in H; try discriminate.
+  apply Ok_inj, pair_inj in H. destruct H as [<- <-].
+  rewrite <- !app_assoc.
+  rewrite (run_trace_bind_ok _ _ _ _ _ (proj2 (len_roundtrip_of_ok _ _ _ _ _ EL))).
+  cbv beta. rewrite KD. rewrite run_trace_bind_lift_ok.
+  destruct (dist_slot_spec dist Hd) as (Hs & Hlow & _).
+  rewrite (run_trace_bind_ok _ _ _ _ _
+             (bittree_roundtrip dsk 6 (get_dist_slot dist) _ ltac:(change (2 ^ Z.of_nat 6) with 64; lia))).
+  erewrite run_trace_bind_ok; [reflexivity|].
+  destruct (Z.lt_ge_cases dist 4) as [Hd4|Hd4].
+  - rewrite (Hlow Hd4). destruct (Z.ltb_spec dist 4); [|lia]. reflexivity.
+  - destruct (dist_footer_facts dist ltac:(lia)) as (Hs4 & Hfb & Esh & Er & Edr & Hdr & Hsm & Hlg).
+    set (slot := get_dist_slot dist) in *. clearbody slot.
+    destruct (Z.ltb_spec slot 4); [lia|].
+    rewrite Esh, Er, Edr.
+    set (fb := slot / 2 - 1) in *. clearbody fb.
+    set (hi := 2 + slot mod 2) in *. clearbody hi.
+    destruct (Z.ltb_spec slot 14).
+    + rewrite footer_small by lia. do 3 f_equal. lia.
+    + cbn [app]. rewrite footer_large by lia. do 3 f_equal. lia.
+Qed.
+
+Theorem match_events_ok c ps dist len evs c' :
+  0 <= dist < 2 ^ 32 ->
+  enc_match_events c ps dist len = Ok (evs, c') -> forallb ev_ok evs = true.
+Proof.
+  intros Hd H. unfold enc_match_events in H. cbv zeta in H.
+  destruct (enc_len K_MATCH_LEN len ps) as [elen| | |] eqn:EL; cbn [obind] in H; try discriminate.
+  destruct (key2 K_DIST_SLOTS 4 64 (dist_state_of_len len) 0) as [dsk| | |] eqn:KD;
+    cbn [obind] in H; try discriminate.
+  apply Ok_inj, pair_inj in H. destruct H as [<- <-].
+  apply forallb_app_true; [apply (enc_len_events_ok _ _ _ _ EL)|].
+  apply forallb_app_true; [apply enc_bittree_ok|].
+  destruct (Z.ltb_spec (get_dist_slot dist) 4) as [Hs4|Hs4]; [reflexivity|].
+  destruct (Z.ltb_spec (get_dist_slot dist) 14) as [Hs14|Hs14]; [apply enc_rev_bittree_ok|].
+  assert (Hd4 : 4 <= dist).
+  { destruct (Z.lt_ge_cases dist 4) as [L|G]; [|assumption].
+    destruct (dist_slot_spec dist Hd) as (_ & Hlow & _). rewrite (Hlow L) in Hs4. lia. }
+  destruct (dist_footer_facts dist ltac:(lia)) as (_ & Hfb & Esh & Er & Edr & Hdr & _ & Hlg).
+  set (slot := get_dist_slot dist) in *. clearbody slot.
+  rewrite Esh, Er, Edr.
+  set (fb := slot / 2 - 1) in *. clearbody fb.
+  set (hi := 2 + slot mod 2) in *. clearbody hi.
+  specialize (Hlg Hs14).
+  cbn [forallb]. rewrite enc_rev_bittree_ok, andb_true_r.
+  unfold ev_ok. rewrite Z.shiftr_div_pow2 by lia. change (2 ^ 4) with 16.
+  rewrite shiftl_1_pow2 by lia. rewrite Z2Nat.id by lia.
+  assert (E : 2 ^ fb = 2 ^ (fb - 4) * 16).
+  { change 16 with (2 ^ 4). rewrite <- Z.pow_add_r by lia. f_equal. lia. }
+  pose proof (pow2_pos (fb - 4) ltac:(lia)) as HP.
+  repeat (apply andb_true_iff; split).
+  - apply Nat.leb_le. lia.
+  - apply Nat.leb_le. lia.
+  - apply Z.leb_le. apply Z.div_pos; lia.
+  - apply Z.ltb_lt. apply Z.div_lt_upper_bound; lia.
+Qed.
+
+(* the LZMA1 end marker is an instance *)
+Corollary end_marker_roundtrip c ps evs c' rest :
+  0 <= ps < 16 ->
+  enc_match_events c ps 4294967295 2 = Ok (evs, c') ->
+  run_trace (decode_match c ps) (evs ++ rest) = Some (Ok (c', 2), rest).
+Proof. intros Hp H. apply (match_roundtrip c ps 4294967295 2 evs c' rest); try assumption; lia. Qed.
+
+(* ---------------------------------------------------------------------------------------------
+   Totality of the encoder functions on their intended domain (non-vacuity of the round trips) *)
+Lemma enc_match_events_total c ps dist len :
+  2 <= len <= 273 -> 0 <= ps < 16 -> exists evs c', enc_match_events c ps dist len = Ok (evs, c').
+Proof.
+  intros Hl Hp. unfold enc_match_events.
+  destruct (enc_len_total K_MATCH_LEN len ps Hl Hp) as [elen ->]. cbn [obind].
+  rewrite key2_ok; [cbn [obind]; eauto | | lia].
+  unfold dist_state_of_len. destruct (Z.ltb_spec len 6); lia.
+Qed.
+
+Lemma enc_rep_events_total c ps idx len :
+  0 <= c_state c < 12 -> 0 <= ps < 16 ->
+  (idx = 0 /\ len = 1) \/ (0 <= idx <= 3 /\ 2 <= len <= 273) ->
+  exists evs c', enc_rep_events c ps idx len = Ok (evs, c').
+Proof.
+  intros Hs Hp Hc. unfold enc_rep_events. cbv zeta.
+  rewrite key1_ok by assumption. cbn [obind].
+  destruct (Z.eqb_spec idx 0) as [Hi0|Hi0].
+  - rewrite key2_ok by assumption. cbn [obind].
+    destruct (Z.eqb_spec len 1) as [Hl1|Hl1]; [eauto|].
+    destruct (enc_len_total K_REP_LEN len ps ltac:(lia) Hp) as [elen ->]. cbn [obind]. eauto.
+  - destruct Hc as [Hc|[Hi Hl]]; [lia|].
+    destruct (Z.ltb_spec idx 0); [lia|]. destruct (Z.ltb_spec 3 idx); [lia|].
+    destruct (Z.eqb_spec len 1); [lia|]. cbn [orb].
+    rewrite !key1_ok by assumption. cbn [obind].
+    destruct (enc_len_total K_REP_LEN len ps Hl Hp) as [elen EL].
+    destruct (idx =? 1); [|destruct (idx =? 2)]; rewrite EL; cbn [obind]; eauto.
+Qed.
+
+(* ---------------------------------------------------------------------------------------------
+   6. Every event the symbol encoder produces is well formed *)
+Theorem events_ok :
+  (forall base len ps evs, enc_len base len ps = Ok evs -> forallb ev_ok evs = true) /\
+  (forall c ps dist len evs c', 0 <= dist < 2 ^ 32 ->
+     enc_match_events c ps dist len = Ok (evs, c') -> forallb ev_ok evs = true) /\
+  (forall c ps idx len evs c', enc_rep_events c ps idx len = Ok (evs, c') -> forallb ev_ok evs = true) /\
+  (forall lbase mb b, forallb ev_ok (lit_events lbase mb b) = true).
+Proof.
+  split; [exact enc_len_events_ok|]. split; [exact match_events_ok|].
+  split; [exact rep_events_ok | exact lit_events_ok].
+Qed.
+
+(* element-wise form *)
+Corollary events_ok_in evs ev : forallb ev_ok evs = true -> In ev evs -> ev_ok ev = true.
+Proof. intros H. rewrite forallb_forall in H. apply H. Qed.
